@@ -28,6 +28,11 @@ EVDIR = os.path.join(BUILD, "selftest-out", str(os.getpid())) if SELFTEST else o
 RPDIR = os.path.join(BUILD, "selftest-out", str(os.getpid())) if SELFTEST else os.path.join(VERIF, "replays")
 STUBS = os.path.join(VERIF, "stubs")
 MEM_KB = 12 * 1024 * 1024
+# SAT back end for targets that do not name one: cadical (MiniSat, cbmc's default, is pathological on several contract
+# instances here - minutes instead of seconds; DESIGN 13); VERIF_SAT=minisat2 switches back
+DEFAULT_SAT = os.environ.get("VERIF_SAT", "cadical")
+if DEFAULT_SAT in ("minisat2", "default", ""):
+    DEFAULT_SAT = None
 
 DEFAULT_CHECKS = ["--no-standard-checks", "--bounds-check", "--pointer-check", "--div-by-zero-check",
                   "--pointer-primitive-check", "--slice-formula"]
@@ -106,7 +111,9 @@ def run_target(kb, t, obj, workdir, trace=True):
     if t.unwind is not None:
         cb += ["--unwind", str(t.unwind), "--unwinding-assertions"]
     cb += ["--object-bits", str(t.objbits or 12)]
-    if t.solver and t.solver.startswith("sat:"):
+    if not t.solver and DEFAULT_SAT:
+        cb += ["--sat-solver", DEFAULT_SAT]
+    elif t.solver and t.solver.startswith("sat:"):
         cb += ["--sat-solver", t.solver[4:]]  # e.g. cadical: MiniSat is pathological on some contract instances (DESIGN 13)
     elif t.solver:
         cb.append("--" + t.solver)
@@ -140,7 +147,7 @@ def run_target(kb, t, obj, workdir, trace=True):
         res["messages"].append("no result block (rc=%s) %s" % (rc, err[-800:]))
         return res
     res["results"] = results
-    res["backend"] = ("sat(%s)" % t.solver[4:] if (t.solver or "").startswith("sat:") else t.solver) or "sat(minisat2)"
+    res["backend"] = ("sat(%s)" % t.solver[4:] if (t.solver or "").startswith("sat:") else t.solver) or ("sat(%s)" % (DEFAULT_SAT or "minisat2"))
     return res
 
 
